@@ -26,7 +26,7 @@ def main():
     pairs = re.findall(r"(/tmp/wt/\S+?)\s+(?:to|->|into)\s+(?:/tmp/wt/%s/)?(crates/\S+|examples/\S+)" % ID, inst)
     if not pairs:
         dest = re.search(r"(crates/[\w/.-]+|examples/[\w/.-]+)", inst)
-        for f in sorted(set(glob.glob(os.path.join(out, "demo*")) + glob.glob(os.path.join(out, "*.rs")))):
+        for f in sorted(set(x for x in glob.glob(os.path.join(out, "demo*")) + glob.glob(os.path.join(out, "*.rs")) if os.path.isfile(x) and x.endswith(".rs"))):
             if dest:
                 d = dest.group(1)
                 pairs.append((f, d if d.endswith(os.path.basename(f)) or "." in os.path.basename(d) else os.path.join(d, os.path.basename(f))))
